@@ -84,7 +84,7 @@ def batch(job):
     }
     every = job.get("digest_every", 50)
     if not run_timeout:
-        faulthandler.dump_traceback_later(budget + 120, exit=True)
+        faulthandler.dump_traceback_later(budget + 120, exit=True, file=sys.__stderr__)
     i = job["start"]
     stop = job["stop"]
     step = job["step"]
@@ -95,7 +95,7 @@ def batch(job):
         if pfd is not None:
             os.pwrite(pfd, struct.pack("<q", i), 0)
         if run_timeout:
-            faulthandler.dump_traceback_later(run_timeout, exit=True)
+            faulthandler.dump_traceback_later(run_timeout, exit=True, file=sys.__stderr__)
         tape = Tape(seed=run_seed(job["seed"], job["prop"], leg, i))
         ctx, viol = execute(mod, leg, tape, params)
         res["runs"] += 1
@@ -130,7 +130,7 @@ def single(job):
     if setup is not None:
         setup(leg, params)
     if job.get("run_timeout"):
-        faulthandler.dump_traceback_later(job["run_timeout"], exit=True)
+        faulthandler.dump_traceback_later(job["run_timeout"], exit=True, file=sys.__stderr__)
     if job.get("tape") is not None:
         tape = Tape(values=job["tape"])
     else:
@@ -178,7 +178,7 @@ def shrink(job):
     budget = job.get("budget_s", 60)
     tries = [0]
     if job.get("run_timeout"):
-        faulthandler.dump_traceback_later(budget + 60 + job["run_timeout"], exit=True)
+        faulthandler.dump_traceback_later(budget + 60 + job["run_timeout"], exit=True, file=sys.__stderr__)
 
     def test(values):
         tries[0] += 1
